@@ -5,7 +5,7 @@ EXTENDS SSHPacket, Json
 \* ---- mode sets
 ClassOf(cl) == {m \in AllModes : m.class = cl}
 Rep(cipher, mac) == CHOOSE m \in AllModes : m.cipher = cipher /\ m.mac = mac
-ConformingModes == {m \in AllModes : m.class # "CBCEtM"}      \* every mode but CBC x -etm MAC
+ConformingModes == AllModes      \* every registered mode (CBC x -etm MAC included since the repair 78606fd)
 CBCEtMModes == ClassOf("CBCEtM")
 RepEaM    == Rep("aes128-ctr", "hmac-sha2-256")
 RepEaM8   == Rep("arcfour128", "hmac-sha1-96")
@@ -17,9 +17,9 @@ RepCBC8   == Rep("3des-cbc", "hmac-sha2-256")
 RepCBCEtM == Rep("aes128-cbc", "hmac-sha2-256-etm@openssh.com")
 AuthReps  == {RepEaM, RepEaM8, RepEtM, RepGCM, RepChaCha, RepCBC, RepCBC8}
 SeqReps   == AuthReps \cup {NoneMode}
-AttackReps == AuthReps \cup {RepCBCEtM}     \* cbcCipher authenticates CBC x etm like CBC
+AttackReps == AuthReps \cup {RepCBCEtM}
 NoneOnly  == {NoneMode}
-WrapWeak  == {RepEtM, RepChaCha}            \* tag does not depend on the key-stream offset
+WrapWeak  == {RepEtM, RepChaCha, RepCBCEtM} \* tag does not depend on the key-stream / chain offset
 WrapStrong == {RepEaM, RepCBC, RepGCM}
 AuthModes == {m \in AllModes : m.auth}
 \* three-way split of AllModes so that the single-packet generator can run as three TLC instances
